@@ -6,7 +6,7 @@ PROP = "C06"
 
 def kw(rng, i):
     return {"max_requests": rng.choice([None, None, 1, 2, 3, 0]), "queue_size": rng.choice([None, 10]),
-            "policy": rng.choice(["fifo", "random", "lifo"]), "n_requests": rng.randint(1, 5)}
+            "policy": rng.choice(["fifo", "random", "lifo"]), "n_requests": rng.randint(1, 5), "worker": rng.choice(["asyncio", "trio"])}
 
 
 def run(ctx):
